@@ -104,6 +104,43 @@ def r2_fetch_gate(chk, repo):
                 chk.check(mon.lexically_held(c), "C13.R2", f, stmt_of(c), "fetch predicate evaluated without the lock", site_text=f"{f.qualname}: _can_fetch() under the lock", nontrivial=False)
 
 
+
+DTN_DICTS = {"plugins", "loaders", "savers", "loader_plugins"}
+DTN_SEQS = {"provides", "depends_on", "targets"}
+
+
+def _name_lists(func):
+    """Locals of `func` bound to a single data-type *name* (a str): keys of the component dicts and
+    elements of provides / depends_on / targets.  Returns {name: binding loop / comprehension}."""
+    out = {}
+
+    def bind(target, it, where):
+        if isinstance(it, ast.Call) and isinstance(it.func, ast.Attribute) and it.func.attr == "items" and isinstance(it.func.value, ast.Attribute) and it.func.value.attr in DTN_DICTS:
+            if isinstance(target, ast.Tuple) and target.elts and isinstance(target.elts[0], ast.Name):
+                out[target.elts[0].id] = where
+        elif isinstance(it, ast.Attribute) and it.attr in (DTN_DICTS | DTN_SEQS) and isinstance(target, ast.Name):
+            out[target.id] = where
+
+    for n in walk_body(func.node):
+        if isinstance(n, ast.For):
+            bind(n.target, n.iter, n)
+        elif isinstance(n, ast.comprehension):
+            bind(n.target, n.iter, n)
+    return out
+
+
+def str_as_collection(func):
+    """[(node, name)] where a data-type name is iterated character by character."""
+    names = _name_lists(func)
+    bad = []
+    for n in walk_body(func.node):
+        if isinstance(n, ast.Call) and isinstance(n.func, ast.Name) and n.func.id in ("set", "list", "tuple", "frozenset", "sorted") and len(n.args) == 1 and isinstance(n.args[0], ast.Name) and n.args[0].id in names:
+            bad.append((n, n.args[0].id))
+        elif isinstance(n, (ast.For, ast.comprehension)) and isinstance(n.iter, ast.Name) and n.iter.id in names:
+            bad.append((n, n.iter.id))
+    return names, bad
+
+
 def r3_wiring(chk, repo):
     chk.describe("C13.R3", "lazy mode only without worker pools; the same flag reaches mailboxes and dividers; savers of computed data never drive; flow-freely outputs = produced - required")
     f = repo.func("ThreadedMailboxProcessor.__init__", THREADED)
@@ -153,6 +190,13 @@ def r3_wiring(chk, repo):
             chk.check(norm(n.stmt.value) == f"not {LAZY}", "C13.R3", f, n.stmt, "a saver of computed data may drive production in lazy mode (production is then not limited by the consumer)", site_text="savers of built types: can_drive = not lazy", site={"function": f.qualname, "construct": "saver can_drive"})
     ar = [c for c in calls_in(f.node) if isinstance(c.func, ast.Attribute) and c.func.attr == "add_reader" and any("save_from" in norm(a) for a in c.args)]
     chk.check(bool(ar) and CD is not None and all(kw(c, "can_drive") is not None and norm(kw(c, "can_drive")) == CD for c in ar), "C13.R3", f, None, "savers subscribe without the can_drive decision", site_text="add_reader(save_from, can_drive=can_drive)")
+    # the multi-output correction: other outputs than the one the plugin is listed under
+    names, bad = str_as_collection(f)
+    chk.check(len(names) >= 3, "C13.R3", f, None, "data-type name variables of the wiring code were not recognised (anchor moved)", site_text="wiring: data-type names recognised", nontrivial=False)
+    for node, nm in bad:
+        chk.fail("C13.R3", f, stmt_of(node), f"the data-type name `{nm}` (a string) is iterated as a collection: `{norm(node)[:60]}` yields its characters, so set arithmetic on data types goes wrong (every output of a multi-output plugin would flow freely and production would no longer be limited by demand)", site={"function": f.qualname, "construct": "str iterated as collection", "name": nm})
+    if not bad:
+        chk.ok("C13.R3", "wiring: no data-type name is iterated as a collection")
     mm = [n for n, b in pfind(f.node, "L_m.max_messages = max_messages")]
     chk.check(bool(mm), "C13.R3", f, None, "mailbox capacity is not set from the requested max_messages", site_text="m.max_messages = max_messages")
     init = repo.func("Mailbox.__init__", MAILBOX)
@@ -224,6 +268,8 @@ def r5_demand(chk, repo):
 
 
 WITNESSES = [
+    W("data-type name iterated as characters", "C13.R3", THREADED,
+      "reader_data_types = set(strax.to_str_tuple(d))", "reader_data_types = set(d)"),
     W("capacity comparison <=", "C13.R1", MAILBOX,
       "return len(self._mailbox) < self.max_messages or self.killed", "return len(self._mailbox) <= self.max_messages or self.killed"),
     W("source advanced before the fetch gate", "C13.R2", MAILBOX,
